@@ -88,8 +88,8 @@ def c16(c):
     c.validate("Trace_Field", files)
     c.count_classes(files, field_class)
     c.sample_events(files, 3)
-    return c.finish(rule="one event per (decoder/encoder, length 0..64, value class); value classes 0,1,255,256,r-1,r,r+1,2r,p-1,p,2^255,2^256-1,all-ones,msb-only,lsb-only,random; "
-                         "each decode is done twice on the same buffer and the buffer is compared before/after; distinct = distinct (function, value class, length)", min_events=100)
+    return c.finish(rule="one event per (decoder/encoder, length 0..64, value class); value classes 0,1,255,256,r-1,r,r+1,2r,3r,4r+1,5r-1,8r-1,8r,(r-1)/2 and neighbours,p-1,p,2^255,2^256-1,r +- 2^64/2^128/2^192, r with random low 64/128/192 bits,all-ones,msb-only,lsb-only,random; "
+                         "each decode is done twice into a fresh receiver and once into a receiver that already holds a value, and the buffer is compared before/after; distinct = distinct (function, value class, length)", min_events=100)
 
 
 # ------------------------------------------------------------------------------------------ misc family (behaviour outside the listed properties' main paths)
@@ -191,7 +191,8 @@ def c06(c):
     c.count_classes(files, group_class)
     c.sample_events(files, 3)
     return c.finish(rule="entry point x input class x seeded member; classes as classified by the specification from the bytes: accept, accept with y at the boundary of the sign choice ((p-1)/2, limb by limb), wrong length, x>=p, y>=p, "
-                         "off curve, wrong/non-canonical y, outside the subgroup; every class must be non-empty; distinct = distinct inputs", min_events=300)
+                         "off curve, wrong/non-canonical y, outside the subgroup; every class must be non-empty; inputs built from x (random, boundary) and from the y side (canonical y next to (p-1)/2 limb by limb, next to p); "
+                         "every decode also into a receiver that already holds an element; distinct = distinct inputs", min_events=300)
 
 
 # ------------------------------------------------------------------------------------------ C20
@@ -442,9 +443,10 @@ def c02(c):
     c.guard(any(k.endswith("/rejected") for k in c.judged) and any(k.endswith("/error") for k in c.judged), "no rejection / no shape error observed")
     c.count_classes(files, proof_class)
     proof_sample(c, files, ("verify", "ipa_verify"))
-    return c.finish(rule="honest multiproofs on a set of shapes, each verified honestly and under single-component perturbations enumerated by Gen_Proof (46 kinds: every statement and proof "
+    return c.finish(rule="honest multiproofs on a set of shapes, each verified honestly and under single-component perturbations enumerated by Gen_Proof (55 kinds: every statement and proof "
                          "component x value classes +G/identity/negation/another honest value/random/r-1/0, representation-only changes, order swap, drop, duplicate, label, splices of a "
-                         "second proof, shape faults |L|,|R|,|Cs|,|ys|,|zs|, zero openings); IPA proofs checked against 7 claimed results each; every verdict compared with the reference "
+                         "second proof, proofs made for another polynomial, proofs FORGED by an adversarial prover that absorbs a false claim and proves as if the verifier ignored it (repeated query, dropped opening, "
+                         "dropped index), shape faults |L|,|R|,|Cs|,|ys|,|zs|, zero openings); IPA proofs checked against 7 claimed results and 7 single-component proof changes each; every verdict compared with the reference "
                          "verifier's; distinct = distinct (kind, perturbation, zs, label)", min_events=60, assumptions=MP_ASSUME)
 
 
@@ -478,8 +480,8 @@ def c10(c):
     proof_sample(c, files, ("read", "write"))
     c.count_classes(misc_run(c, "c10"), misc_class)      # MultiProof.Equal / IPAProof.Equal (spec/core/Misc.tla)
     return c.finish(rule="byte-string classes (valid, short, empty, trailing, scalar = r-1/r/r+1/2^256-1, point at each position replaced by x+p / non-subgroup / off-curve / other valid, "
-                         "bit flip, random) x reader behaviours (whole, 1 byte, 7, 32, 33 bytes at a time, EOF together with the last chunk, injected error at offset k) for MultiProof.Read and "
-                         "IPAProof.Read; writer failing at each call; distinct = distinct (source, byte class, reader class, data prefix)", min_events=200)
+                         "several invalid point fields at once (2, 4, all sixteen, the same twice), bit flip, random) x reader behaviours (whole, 1 byte, 7, 32, 33 bytes at a time, EOF together with the last chunk, injected error at offset k) for MultiProof.Read and "
+                         "IPAProof.Read, each accepted stream read a second time into the object that already holds a proof; writer failing at each call; MultiProof.Equal / IPAProof.Equal under single-component changes; distinct = distinct (source, byte class, reader class, data prefix)", min_events=200)
 
 
 # ------------------------------------------------------------------------------------------ C13
@@ -567,7 +569,8 @@ def c12(c):
     c.count_classes(files, lambda e: (e.get("prog"), e.get("g"), e.get("i"), e.get("op"), e.get("k"), e.get("gomaxprocs"), e.get("envgmp")) if e["ev"] == "conc" else None)
     c.sample_events(files[:2], 2, keep=lambda e: e["ev"] == "conc")
     return c.finish(rule="K in {2,8} (thorough: 2,4,8,32) goroutines x runtime GOMAXPROCS {1,4,16} (thorough: 1,2,4,16), K = 64 (thorough: 64,128) callers on MSM-bound mixes, processes started with GOMAXPROCS=1 (thorough: 1,2,4) x call mixes (prove+verify, commit, MSM over the shared SRS, encode/decode, batch helpers, "
-                         "transcripts, polynomial routines, IPA); every call executed alone and concurrently, replies compared; harness built with -race; distinct = distinct (program, goroutine, position)",
+                         "transcripts, polynomial routines, IPA); sustained-overlap programs (16 goroutines repeating calls of one kind 200 [thorough 1500] times, on the plain build); "
+                         "every call executed alone and concurrently, replies compared; mixed programs on the -race build; progress watchdog; distinct = distinct (program, goroutine, position)",
                     min_events=100,
                     assumptions=["freedom from instruction-level data races is OBSERVED by the Go race detector on the schedules that occurred, not decided by the model; "
                                  "TLC decides reply independence and deadlock freedom of the modelled synchronisation (MC_Conc, MC_MsmChan, MC_Execute, MC_Proofs arrival orders)"])
